@@ -172,6 +172,19 @@ theorem terminates {c : Cfg} {n : Nat} {input : List α} {s : State α} (hc : c.
   intro hf
   exact hne (no_stuck hc hn hnl hr' hf)
 
+/-- the hypotheses of `terminates` / the `Final` clause of `queue_no_loss_no_dup` are satisfiable: a complete run
+    (put, get, 32 finish posts, empty wake-up, exit) for the generated constants ends final with the path delivered -/
+example : ∃ s : State Nat, Reachable YaraModel.Gen.Cli.cfg 1 [5] s ∧ Final s ∧ s.delivered = [5] := by
+  have key : (runActs YaraModel.Gen.Cli.cfg (init YaraModel.Gen.Cli.cfg 1 [5]) (demoSched YaraModel.Gen.Cli.cfg)).map
+      (fun s => (s.ppc, s.cs, s.delivered)) = some (.done, [.exited], [5]) := by decide
+  cases h : runActs YaraModel.Gen.Cli.cfg (init YaraModel.Gen.Cli.cfg 1 [5]) (demoSched YaraModel.Gen.Cli.cfg) with
+  | none => rw [h] at key; cases key
+  | some s =>
+    rw [h] at key
+    simp only [Option.map_some, Option.some.injEq, Prod.mk.injEq] at key
+    obtain ⟨h1, h2, h3⟩ := key
+    exact ⟨s, runActs_reachable _ .init h, ⟨h1, by rw [h2]; simp⟩, h3⟩
+
 /-- The theorems above, for the constants of the code as it is (any `1 ≤ n ≤ YR_MAX_THREADS`). -/
 theorem cli_queue_correct {n : Nat} {input : List α} {s : State α} (hn : 1 ≤ n) (hnl : n ≤ YaraModel.Gen.Cli.cfg.threadLimit)
     (hr : Reachable YaraModel.Gen.Cli.cfg n input s) :
